@@ -127,13 +127,22 @@ func vhCreatePersist(hy *hydra, islandID uint64, n name.Name) swamp.Swamp {
 	chr := chronicler.NewV2WithName(vhDir, 2, n.Get())
 	chr.CreateDirectoryIfNotExists()
 	return swamp.New(n, time.Duration(vhIdleSec)*time.Second, &swamp.FilesystemSettings{ChroniclerInterface: chr, WriteInterval: time.Second},
-		hy.eventCallbackFunction, hy.infoCallbackFunction, func(c name.Name) {
+		func(e *swamp.Event) {
+			if e.StatusType == treasure.StatusDeleted {
+				vhDeleteEventSeen = true
+			}
+			hy.eventCallbackFunction(e)
+		}, hy.infoCallbackFunction, func(c name.Name) {
 			vhLive--
 			hy.closeEventCallbackFunction(c)
 		}, metadata.NewNoop())
 }
 
 var vhIdleSec = 3600
+
+// vhDeleteEventSeen: a delete event of a persistent harness swamp has been delivered (the swamp
+// delivers it from inside the delete, before DeleteTreasure decides about auto-destroy).
+var vhDeleteEventSeen = false
 
 func vhPut(s swamp.Swamp, key string, v int64) {
 	t := s.CreateTreasure(key)
@@ -162,8 +171,10 @@ func VerifC16Ack(h *verifrt.H) {
 	s0, err := hy.SummonSwamp(ctx, 1, n)
 	h.Assert(err == nil, "setup-summon")
 	vhPut(s0, "k1", 1)
+	s0.StartSendingEvents() // so that the delete event marks the point where the delete is done
+	vhDeleteEventSeen = false
 	event := h.Choose("lifecycleEvent", h.Param("events", 2)) // 0 last-record delete, 1 graceful close, 2 explicit destroy
-	acked, sameInstance := false, false
+	acked, sameInstance, landedBeforeDeleteEvent := false, false, false
 	v := h.Int64("value")
 	h.Assume(v != 0)
 	h.Go("writer", func() {
@@ -174,6 +185,7 @@ func VerifC16Ack(h *verifrt.H) {
 		sameInstance = s == s0
 		s.BeginVigil()
 		vhPut(s, "k2", v)
+		landedBeforeDeleteEvent = !vhDeleteEventSeen
 		s.CeaseVigil()
 		acked = true
 	})
@@ -218,7 +230,11 @@ func VerifC16Ack(h *verifrt.H) {
 		}
 		// The recorded findings concern a write into the very instance that is going away. A write
 		// acknowledged by a NEW instance (created after the old one was gone) must always survive.
-		h.Known("C16-auto-destroy-deletes-concurrent-write", "acknowledged-write", event == 0 && sameInstance)
+		// The recorded auto-destroy finding: DeleteTreasure looks at the record count AFTER the
+		// delete is complete (the delete event has been delivered by then); only a write that
+		// lands after that point can be destroyed. A write that was in the swamp before the
+		// delete event went out is counted and must survive.
+		h.Known("C16-auto-destroy-deletes-concurrent-write", "acknowledged-write", event == 0 && sameInstance && !landedBeforeDeleteEvent)
 		h.Known("C16-idle-close-between-summon-and-vigil", "acknowledged-write", event == 1 && sameInstance)
 		h.Assert(gerr == nil, "acknowledged-write-present-after-reopen")
 		h.ClearKnown()
